@@ -65,7 +65,24 @@ func h3wGet(h http.Header, lower string) ([]string, bool) {
 	return nil, false
 }
 
+// h3wForced: fixed table entries merged into the first generated header maps / trailer maps, so
+// that the shapes the seeded changes needed (non-canonical spellings of every filtered name; trailer
+// sets in which nothing is encodable) are exercised on every seed, not by luck.
+var h3wForcedHeaders = []http.Header{
+	{"connection": {"close"}}, {"CONNECTION": {"keep-alive"}}, {"transfer-encoding": {"chunked"}}, {"Keep-alive": {"timeout=5"}},
+	{"proxy-connection": {"keep-alive"}}, {"UPGRADE": {"h2c"}}, {"content-length": {"1337"}}, {"host": {"other.example"}},
+	{"user-agent": {"ua1", "ua2"}}, {"USER-AGENT": {""}}, {"te": {"trailers"}}, {"cookie": {"a=1", "b=2"}, "x-a": {"1"}},
+}
+var h3wForcedTrailers = []http.Header{
+	{"X-Checksum": nil}, {"X-Checksum": {}, "X-T1": nil}, {"Content-Length": {"5"}, "Upgrade": {"x"}}, {"Upgrade": {"x"}, "X-T1": {}},
+	{}, {"x-checksum": {"v"}, "X-Empty": nil},
+}
+var h3wForced, h3wForcedTrailer http.Header
+
 func genHeader(r *u.Rng, response bool) http.Header {
+	if h3wForced != nil {
+		return h3wForced.Clone()
+	}
 	h := http.Header{}
 	// one key per name (whatever its spelling): the order in which two spellings of one name are
 	// iterated is not deterministic, which would make the expected Cookie / User-Agent ambiguous
@@ -163,13 +180,23 @@ func runH3Writers(w *bufio.Writer, seed uint64, n int, _ []string) {
 	}()
 	for i := 0; i < n; i++ {
 		rr := r.Fork()
-		switch i % 3 {
+		h3wForced = nil
+		if k := i / 4; k < len(h3wForcedHeaders) && (i%4 == 0 || i%4 == 1) {
+			h3wForced = h3wForcedHeaders[k]
+		}
+		h3wForcedTrailer = nil
+		if k := i / 4; k < len(h3wForcedTrailers) && i%4 == 2 {
+			h3wForcedTrailer = h3wForcedTrailers[k]
+		}
+		switch i % 4 {
 		case 0:
 			h.writerRequest(rr, i)
 		case 1:
 			h.writerResponse(rr, i)
 		case 2:
 			h.writerTrailers(rr, i)
+		case 3:
+			h.h3wDecodeTrailers(rr)
 		}
 	}
 }
@@ -566,6 +593,9 @@ func (h *h3run) writerTrailers(r *u.Rng, i int) {
 	case 5: // unsendable with value + sendable without
 		tr = http.Header{"Upgrade": {"x"}, "X-T1": {}}
 	}
+	if h3wForcedTrailer != nil {
+		tr = h3wForcedTrailer.Clone()
+	}
 	detail := fmt.Sprintf("request trailers=%q", tr)
 	defer func() {
 		if p := recover(); p != nil {
@@ -689,4 +719,74 @@ func h3wResponseCases(w *bufio.Writer, status int, hdr http.Header, body []byte,
 		}
 		fmt.Fprintf(w, "CASE %d %s\n", nt, u.App("WRspTr", coqHeader(snap1), coqHeader(snap2), res))
 	}
+}
+
+// ---- receive-side glue: qpack + decodeTrailers (frame-length gate, decoded-size limit) ----
+
+func (h *h3run) h3wDecodeTrailers(r *u.Rng) {
+	var fs []hf
+	switch r.Intn(6) {
+	case 0: // nothing encoded at all: an empty field section (what seeded C19-b made the writer send)
+	case 1, 2: // a valid trailer section
+		for j := r.Intn(3); j >= 0; j-- {
+			fs = append(fs, hf{strings.ToLower(wTrailers[r.Intn(len(wTrailers))]), wHdrVals[r.Intn(len(wHdrVals))]})
+		}
+	case 3: // arbitrary fields (parser-side generator: pseudo, forbidden, upper case, binary)
+		for j := r.Intn(3); j >= 0; j-- {
+			fs = append(fs, genField(r, kTrailer))
+		}
+	default: // valid plus one arbitrary
+		fs = append(fs, hf{"x-t1", "v"}, genField(r, kTrailer))
+		if r.Bool() {
+			fs[0], fs[1] = fs[1], fs[0]
+		}
+	}
+	size := sectionSize(fs)
+	// probe the encoded length first
+	_, encLen, _, _ := http3.VerifDecodeTrailers(fs, 1<<20, 0)
+	maxb := []int{1 << 16, encLen - 1, encLen, encLen + 1, size - 1, size, size + 1, 0}[r.Intn(8)]
+	if maxb < 0 {
+		maxb = 0
+	}
+	truncate := 0
+	if encLen > 0 && r.Chance(1, 8) {
+		truncate = 1 + r.Intn(encLen)
+	}
+	detail := fmt.Sprintf("decodeTrailers maxHeaderBytes=%d encodedLength=%d truncatedBy=%d fields=%s", maxb, encLen, truncate, fieldsText(fs))
+	defer func() {
+		if p := recover(); p != nil {
+			h.monfail("h3writers/panic", fmt.Sprint(p), detail)
+		}
+	}()
+	hdr, _, rt, err := http3.VerifDecodeTrailers(fs, maxb, truncate)
+	if !rt {
+		h.monfail("h3writers/qpack-roundtrip", "qpack decode(encode(fields)) differs from fields", detail)
+	}
+	// monitors: accepted => the frame fits, nothing was cut, the section is a well-formed trailer section
+	viol := sectionViolations(fs, kTrailer, maxb)
+	if err == nil {
+		if encLen > maxb || truncate > 0 || len(fs) == 0 {
+			h.monfail("h3writers/decode-trailers-accepted", "decodeTrailers accepted an oversized, truncated or empty HEADERS frame", detail)
+		}
+		for _, v := range viol {
+			h.monfail("h3writers/decode-trailers-accepted-"+v, "decodeTrailers accepted a section that violates rule "+v, detail)
+		}
+		if !sameFields(hdr, headerMultimap(fs, nil)) {
+			h.monfail("h3writers/decode-trailers-map", "trailer map differs from the encoded fields", detail)
+		}
+		h.dist["decode-trailers:accepted"]++
+	} else {
+		if encLen <= maxb && truncate == 0 && len(fs) > 0 && len(viol) == 0 {
+			h.monfail("h3writers/decode-trailers-rejected-wellformed", fmt.Sprintf("decodeTrailers rejected (%v) a well-formed trailer section within the limits", err), detail)
+		}
+		h.dist[fmt.Sprintf("decode-trailers:rejected-class-%d", http3.VerifErrClass(err))]++
+	}
+	res := ""
+	nt := 0
+	if err != nil {
+		res = u.App("DErr", u.Z(int64(http3.VerifErrClass(err))))
+	} else {
+		res, nt = u.App("DOk", coqHeader(hdr)), 1
+	}
+	fmt.Fprintf(h.w, "CASE %d %s\n", nt, u.App("WDec", u.Z(int64(maxb)), u.Z(int64(encLen)), u.B(truncate > 0), coqFields(fs), res))
 }
